@@ -21,6 +21,7 @@ EXPLANATION = (
     "LAYOUT (compiler-decided): a generated witness crate asserts at compile time, for every ArrayCast/UintCast impl x component type, "
     "size, alignment and offset_of of every field in declaration order with alpha last. CAST-FWD: the *As/*From/*Into trait impls forward "
     "to the cast function of the same direction and ownership. Not decided: absence of UB under every input (Miri's family)."
+    " CAST-STD: the 552 std conversion impls of macros/casting.rs are thin forwarders to the cast function of their direction and ownership. CAST-OWN: a by-value transmute_copy moves out of a ManuallyDrop (or forgotten) source."
 )
 
 VERIF = os.path.dirname(os.path.dirname(os.path.abspath(__file__)))
